@@ -613,6 +613,79 @@ def rule_fragmentation(facts):
     return r
 
 
+XZ_FUNCS = ("decode::xz::", "xz::header::", "xz::footer::", "xz::StreamFlags", "xz::CheckMethod", "xz::FilterId")
+
+
+def rule_rejections(facts):
+    """Exactness includes acceptance: the container parser may build an error only behind one of the format's tests - an
+    integrity comparison of the C06 table, a reserved-bit / unsupported-id test of C18, or one of the few listed below.
+    Any other explicit rejection may refuse a well-formed file."""
+    from rules import C06, C18
+    from engine.flow import PosTerms
+    r = report.RuleResult("C03.R9", "the container parser rejects only what the format rejects")
+    C06.KNOWN_GUARDS.clear()
+    C06.rule_table(facts)
+    known = set(C06.KNOWN_GUARDS)
+    n = 0
+    for b in facts.bodies:
+        if b.promoted is not None or b.kind == "Closure" or "closure" in b.name:
+            continue
+        fn = short(b.name)
+        if not any(x in fn for x in XZ_FUNCS) or fn.startswith("encode::"):
+            continue
+        errs = []
+        for blk in b.blocks:
+            if blk.cleanup:
+                continue
+            for s_ in blk.stmts:
+                if s_.k == "assign" and s_.rv.k == "aggregate" and s_.rv.agg == "adt" and s_.rv.adt_name.endswith("error::Error") and \
+                        (s_.rv.variant_name or "").endswith("XzError"):
+                    errs.append(blk.idx)
+        if not errs:
+            continue
+        pt = PosTerms(b)
+        c = cfg(b)
+        term_at = lambda b_: pt.at(b_.idx, None).of_operand(b_.term.discr)
+        for e in errs:
+            n += 1
+            conds = [(gb, t, cond) for (gb, t, cond) in pat.branch_conditions(b, c, e, term_at)
+                     if not (t[0] == "discr" and isinstance(t[1], tuple) and t[1] and t[1][0] == "try")]
+            why = None
+            for (gb, t, cond) in conds:
+                if (b.defk, gb) in known:
+                    why = "integrity comparison (C06 table)"
+            inner = conds[-1] if conds else None
+            if why is None and inner is not None:
+                gb, t, cond = inner
+                truth = cond == ("notin", (0,)) or (cond[0] == "is" and cond[1] == 1)
+                s_ = pat.cmp_sides(t)
+                # reserved bits / unsupported ids / classification switches (C18 decides their exactness)
+                if t[0] == "arg" or (t[0] == "cast" and t[2][0] == "arg") or (s_ and (s_[1][0] == "arg" or s_[2][0] == "arg") and "id" in str(s_)):
+                    why = "id classification (C18.R1/R2)"
+                elif s_ and pat.has_op(t, ("BitAnd",)) and pat.has_call(t, "read_u8") and s_[2] == ("const", 0):
+                    why = "reserved bits (C18.R3)"
+                elif t[0] == "discr" and pat.has_call(t, "::next") and fn.endswith("get_multibyte"):
+                    why = "more than nine bytes in a multi-byte integer"
+                elif s_ and pat.has_call(t, "get_multibyte") and pat.has_arg(t, "header_size") and s_[0] in ("Gt", "Le"):
+                    why = "filter property size larger than the header"
+                elif s_ and pat.has_call(t, "Vec::len") and pat.has_field(t, "props") and s_[2] == ("const", 1):
+                    why = "LZMA2 filter takes one property byte"
+                elif t[0] == "discr" and (pat.has_field(t, "check_method") or pat.has_arg(t, "check_method")):
+                    why = "unsupported check (C18.R1b/R5)"
+                elif pat.has_call(t, "PartialEq::eq") and pat.has_field(t, "check_method"):
+                    why = "unsupported check (C18.R1b/R5)"
+                elif pat.has_call(t, "to_be_bytes") and s_ and s_[2] == ("const", 0):
+                    why = "stream flags null byte (C18.R3)"
+            if why:
+                r.ok("guard", {"fn": fn, "rejects": why})
+            else:
+                r.bad("%s|extra-rejection" % fn.split("::")[-1], "a file is refused for a reason that is not one of the format's tests (%s): cannot "
+                      "verify that no well-formed file is refused" % (flow.show(inner[1])[:70] if inner else "unconditional"), pat.where(b, e), "unverifiable")
+    r.sites = n
+    r.need("explicit rejections of the container parser (found %d)" % n, n >= 15)
+    return r
+
+
 def _ok_sources(b):
     """blocks that assign an Ok aggregate to the return place."""
     out = []
@@ -630,7 +703,7 @@ def run(ctx, t0):
     facts = ctx.facts()
     pat.FACTS = facts
     rules = [rule_padding(facts), rule_multibyte(facts), rule_header_size(facts), rule_accounting(facts), rule_check_field(facts),
-             rule_optional(facts), rule_loop(facts), rule_fragmentation(facts)]
+             rule_optional(facts), rule_loop(facts), rule_fragmentation(facts), rule_rejections(facts)]
     expl = ("Static, container-arithmetic clauses only: the padding, header-size, unpadded-size and filter-count terms are "
             "extracted from MIR and evaluated under the compiled integer widths over their whole (or a residue-covering) "
             "finite domain and compared with the format's formulas; control dependence of optional fields and of the block "
